@@ -141,6 +141,7 @@ type image struct {
 	between string
 	ploss   bool
 	w       int64
+	second  bool // C06: the recovery of this image is tapped and hit by a second power loss
 }
 
 type crashRunner struct {
@@ -396,7 +397,7 @@ func (c *crashRunner) observe(img image, dir string, o OptSpec, depth int, retry
 	o.Rollover = 1 << 30
 	opts := c.x.options(o)
 	var tap *tapRec
-	if depth == 1 && (c.depth2 || (c.ploss2 && img.ploss)) {
+	if depth == 1 && (c.depth2 || img.second) {
 		tap = newTap(dir, true)
 	}
 	var events []tapEvent
@@ -598,10 +599,15 @@ func (c *crashRunner) eval(img image) {
 			}
 		}
 	}
+	// (thorough cuts every file at every length: the second power loss is applied to every fifth image there)
+	img.second = c.ploss2 && img.ploss && (c.torn != "all" || c.nimg%5 == 0)
 	obs, events := c.observe(img, dir, c.opts[i], 1, retry)
 	c.emit(img, S, T, info, obs, 1, img.what)
 	// depth 2: a crash at every step of that recovery, recovered again
-	if c.ploss2 && img.ploss {
+	if c.ploss2 && img.ploss && !img.second {
+		return
+	}
+	if img.second {
 		// second power loss: at every step of the recovery (the last one = after Open has returned, before anything is
 		// synced again) every file goes back to its fsynced length; what the first image held counts as durable
 		done := map[string]bool{}
